@@ -188,7 +188,7 @@ class Case:
     def __init__(self, id, op, meta=None):
         self.id = id; self.op = op; self.meta = meta or {}
 
-def differential(cases, zdrv, workdir, files_env=None, timeout_s=20, sig_of=None):
+def differential(cases, zdrv, workdir, files_env=None, timeout_s=20, sig_of=None, project=None):
     """cases: list of Case (op = 'OP args...').  Returns per-case records:
        {id, op, impl, model, prop(True/False/None), agree}"""
     lines = ['%s %s' % (c.id, c.op) for c in cases]
@@ -212,7 +212,8 @@ def differential(cases, zdrv, workdir, files_env=None, timeout_s=20, sig_of=None
         if ptok and ptok[0] == 'P=1': pv = True
         elif ptok and ptok[0] == 'P=0': pv = False
         sig = ' '.join(ptok[1:]) if len(ptok) > 1 else ''
-        recs.append(dict(id=c.id, op=c.op, impl=i, model=mres, prop=pv, agree=(i == mres), sig=sig, meta=c.meta))
+        ip = project(i, c) if project else i
+        recs.append(dict(id=c.id, op=c.op, impl=i, model=mres, prop=pv, agree=(ip == mres), sig=sig, meta=c.meta))
     errs = impl.get('__errors__', []) + model.get('__errors__', [])
     return recs, errs
 
@@ -330,7 +331,7 @@ def finish(prop, tier, seed, t0, proof, recs, errs, known_sigs, rule, samples, d
 # --------------------------------------------------------------------------- generic check run
 
 def standard_run(prop, modules, gen_cases, tier, seed, replay, assumptions, rule, variant='plain',
-                 nontrivial=None, classify=None, timeout_s=20, extra_cov=None, post=None, env=None, replay_setup=None):
+                 nontrivial=None, classify=None, timeout_s=20, extra_cov=None, post=None, env=None, replay_setup=None, project=None):
     """regenerate -> prove/audit -> build driver + harness from the working tree -> run cases ->
     verdict.  gen_cases(tier, seed, ctx) returns a list of Case; ctx is a dict with 'work' (a scratch
     directory that is removed afterwards) and 'zdrv'."""
@@ -379,7 +380,7 @@ def standard_run(prop, modules, gen_cases, tier, seed, replay, assumptions, rule
             groups.setdefault(c.meta.get('variant', variant), []).append(c)
         for v, cs in groups.items():
             exe = zdrv if v == variant else B.build_exe(zsrc, 'zdrv', variant=v, extra_flags=zflags)
-            r1, e2 = differential(cs, exe, os.path.join(work, 'run-' + v), files_env=e, timeout_s=timeout_s)
+            r1, e2 = differential(cs, exe, os.path.join(work, 'run-' + v), files_env=e, timeout_s=timeout_s, project=project)
             recs += r1; errs += e2
         if post:
             post(recs, ctx)
